@@ -403,11 +403,16 @@ def _ref_load(ast, resources, main_url, packages, env, sm):
                         clash = True
                 if clash:
                     if any(c.wild for c in cands):
+                        if name in F.used_names:
+                            # however the header is resolved, the name is already taken
+                            raise _Reject("name-reuse", lineno, url, promised=False)
                         raise _Unspec("U1")
                     raise _Reject("section-names-key", lineno, url)
             if not cands:
                 raise _Reject("no-slot", lineno, url)
             if len(cands) > 1:
+                if name and name in F.used_names:
+                    raise _Reject("name-reuse", lineno, url, promised=False)
                 raise _Unspec("U2")
             slot = cands[0]
             if slot.wild and slot.name == "+" and not name:
